@@ -67,12 +67,15 @@ def cells(tier):
     triples = [('SD', 'TT+MT', 'SD+TT+MT'), ('TT', 'MT', 'SD'), ('MT', 'SD', 'TT'), ('TT+MT', 'SD+TT+MT', 'MT'),
                ('SD+TT+MT', 'TT', 'TT+MT'), ('SD', 'none', 'SD'), ('none', 'SD', 'TT'), ('SD', 'TT', 'none'),
                ('none', 'none', 'none')]
-    if tier == 'thorough':
-        triples = list(itertools.product(V, V, V))
     for tr in triples:
         # three stories with roEdStart: durations up to 10000 s keep the symbolic datetimes within one
         # day (each day carry forks the datetime model); the full range runs in the thorough tier
         out.append(mk(list(tr), T=T, dmax=100000 if tier == 'thorough' else 10000))
+    if tier == 'thorough':
+        # every combination of timing variants over three stories (durations up to 10000 s)
+        for tr in itertools.product(V, V, V):
+            if tr not in triples:
+                out.append(mk(list(tr), T=T, dmax=10000))
     # explicit StoryStarted / StoryEnded on subsets
     for started, ended in (([1, None], None), ([None, 1], None), (None, [2, None]), (None, [None, 2]),
                            ([1, None], [None, 2]), ([1, 1], [2, 2])):
